@@ -9,6 +9,7 @@ import (
 	"go/constant"
 	"go/token"
 	"go/types"
+	"os"
 	"sort"
 	"strings"
 
@@ -1968,61 +1969,154 @@ func constCmpAdmits(ce ctrlEdge, subject func(ssa.Value) bool, n int64) (relevan
 // so that it cannot wipe the flag. Shared by C02.R5 (SkipRoundTrip), C13.R5
 // (APIRequest) and C15.R4 (SkipLogging).
 func contextFlagRules(r *Report, setter, getter string) {
+	flagRules(r, "Context", setter, getter)
+}
+
+// flagWrite is a write of a receiver field: a Store, or an atomic
+// Store/Swap/CompareAndSwap/Add through the field's address.
+type flagWrite struct {
+	at  ssa.Instruction
+	fo  *types.Var
+	val ssa.Value
+	fn  *ssa.Function
+}
+
+func flagWrites(f *ssa.Function, recvOnly bool) []flagWrite {
+	var out []flagWrite
+	for _, in := range instrs(f) {
+		switch x := in.(type) {
+		case *ssa.Store:
+			if fa, ok := x.Addr.(*ssa.FieldAddr); ok && (!recvOnly || (len(f.Params) > 0 && fa.X == ssa.Value(f.Params[0]))) {
+				out = append(out, flagWrite{x, fieldObj(fa), x.Val, f})
+			}
+		case *ssa.Call:
+			nm := calleeName(x)
+			if !strings.HasPrefix(nm, "sync/atomic.") || len(x.Call.Args) < 2 {
+				continue
+			}
+			fa, ok := x.Call.Args[0].(*ssa.FieldAddr)
+			if !ok || (recvOnly && !(len(f.Params) > 0 && fa.X == ssa.Value(f.Params[0]))) {
+				continue
+			}
+			switch {
+			case strings.HasPrefix(nm, "sync/atomic.Store"), strings.HasPrefix(nm, "sync/atomic.Swap"), strings.HasPrefix(nm, "sync/atomic.Add"):
+				out = append(out, flagWrite{x, fieldObj(fa), x.Call.Args[1], f})
+			case strings.HasPrefix(nm, "sync/atomic.CompareAndSwap") && len(x.Call.Args) == 3:
+				out = append(out, flagWrite{x, fieldObj(fa), x.Call.Args[2], f})
+			}
+		}
+	}
+	return out
+}
+
+func flagReads(f *ssa.Function) map[*types.Var]bool {
+	out := map[*types.Var]bool{}
+	for fo := range fieldsRead(f) {
+		out[fo] = true
+	}
+	for _, c := range calls(f) {
+		if strings.HasPrefix(calleeName(c), "sync/atomic.Load") && len(c.Common().Args) == 1 {
+			if fa, ok := c.Common().Args[0].(*ssa.FieldAddr); ok && len(f.Params) > 0 && fa.X == ssa.Value(f.Params[0]) {
+				out[fieldObj(fa)] = true
+			}
+		}
+	}
+	return out
+}
+
+// flagRules: a mark set by method `setter` of a module type is what `getter`
+// reports, and stays set: the getter reads a field the setter writes, and
+// every other write to that field in the package (other setters sharing a
+// packed word, helpers) keeps the previous contents (read-modify-write), so
+// that it cannot wipe the mark. Plain stores and sync/atomic writes alike.
+func flagRules(r *Report, typ, setter, getter string, unsetters ...string) {
 	w := r.W
-	ctxT := w.Named("", "Context")
-	if ctxT == nil {
-		r.Undecided("M.Context", "UNRESOLVED")
+	T := w.Named("", typ)
+	if T == nil {
+		r.Undecided("M."+typ, "UNRESOLVED")
 		return
 	}
-	sf, gf := w.method(ctxT, setter), w.method(ctxT, getter)
+	sf, gf := w.method(T, setter), w.method(T, getter)
 	if sf == nil || gf == nil || sf.Blocks == nil || gf.Blocks == nil {
-		r.Undecided("(*M.Context)."+setter+" / "+getter, "UNRESOLVED")
+		r.Undecided("(*M."+typ+")."+setter+" / "+getter, "UNRESOLVED")
 		return
 	}
 	r.Touch(sf)
 	r.Touch(gf)
-	written := fieldsWritten(sf)
-	read := fieldsRead(gf)
-	var shared []*types.Var
-	for fo := range written {
-		if _, ok := read[fo]; ok {
-			shared = append(shared, fo)
+	read := flagReads(gf)
+	shared := map[*types.Var]bool{}
+	for _, fw := range flagWrites(sf, true) {
+		if read[fw.fo] {
+			shared[fw.fo] = true
 		}
 	}
-	r.Decide("sibling", fmt.Sprintf("(*M.Context).%s is what (*M.Context).%s reports", setter, getter), len(shared) > 0, "the getter loads a field the setter stores", "the getter does not read what the setter writes: the mark is never seen", sf.Pos())
-	isRMW := func(st *ssa.Store, fo *types.Var) bool {
-		return anyIn(w.backSlice(st.Val, flowOpt{BinOps: true}), func(v ssa.Value) bool {
-			ld, ok := v.(*ssa.UnOp)
-			if !ok || ld.Op != token.MUL {
-				return false
+	r.Decide("sibling", fmt.Sprintf("(*M.%s).%s is what (*M.%s).%s reports", typ, setter, typ, getter), len(shared) > 0, "the getter loads a field the setter stores", "the getter does not read what the setter writes: the mark is never seen", sf.Pos())
+	isRMW := func(fw flagWrite) bool {
+		if c, ok := fw.at.(*ssa.Call); ok && strings.HasPrefix(calleeName(c), "sync/atomic.Add") {
+			return true
+		}
+		return anyIn(w.backSlice(fw.val, flowOpt{BinOps: true}), func(v ssa.Value) bool {
+			switch x := v.(type) {
+			case *ssa.UnOp:
+				if x.Op == token.MUL {
+					fa, ok := x.X.(*ssa.FieldAddr)
+					return ok && fieldObj(fa) == fw.fo
+				}
+			case *ssa.Call:
+				if strings.HasPrefix(calleeName(x), "sync/atomic.Load") && len(x.Call.Args) == 1 {
+					fa, ok := x.Call.Args[0].(*ssa.FieldAddr)
+					return ok && fieldObj(fa) == fw.fo
+				}
 			}
-			fa, ok := ld.X.(*ssa.FieldAddr)
-			return ok && fieldObj(fa) == fo
+			return false
 		})
 	}
-	for _, fo := range shared {
-		// the setter itself sets (constant true / or-ing a bit in), it does not depend on other state
-		for _, st := range written[fo] {
-			b, isB := constBool(st.Val)
-			okSet := (isB && b) || isRMW(st, fo)
-			r.Decide("flow", fmt.Sprintf("(*M.Context).%s sets %s", setter, fo.Name()), okSet, "stores true or adds its bit to the field", "the setter stores something else than true / its own bit", st.Pos())
-		}
-		for _, f := range w.Funcs("") {
-			if f == sf {
+	for _, f := range w.Funcs("") {
+		for _, fw := range flagWrites(f, false) {
+			if !shared[fw.fo] {
 				continue
 			}
-			for _, in := range instrs(f) {
-				st, ok := in.(*ssa.Store)
-				if !ok {
+			if fa, ok := fw.at.(*ssa.Store); ok {
+				if a, isFa := fa.Addr.(*ssa.FieldAddr); isFa && freshBase(a) {
 					continue
 				}
-				fa, ok := st.Addr.(*ssa.FieldAddr)
-				if !ok || fieldObj(fa) != fo || freshBase(fa) {
-					continue
-				}
-				r.Touch(f)
-				r.Decide("flow", fmt.Sprintf("%s does not wipe the mark set by %s", fnName(f), setter), isRMW(st, fo), "its store to "+fo.Name()+" keeps the previous contents (read-modify-write)", fmt.Sprintf("%s overwrites %s, the field %s relies on, without keeping its previous contents: calling it after %s() silently clears the mark", fnName(f), fo.Name(), getter, setter), st.Pos())
 			}
+			r.Touch(f)
+			if f == sf {
+				b, isB := constBool(fw.val)
+				// an enumerated state: the setter stores the very constant the getter compares with
+				enum := false
+				if k, isK := fw.val.(*ssa.Const); isK && !isB && k.Value != nil {
+					for _, gi := range instrs(gf) {
+						b, ok := gi.(*ssa.BinOp)
+						if !ok || b.Op != token.EQL {
+							continue
+						}
+						for _, pr := range [][2]ssa.Value{{b.X, b.Y}, {b.Y, b.X}} {
+							kc, isC := pr[1].(*ssa.Const)
+							ld, isL := pr[0].(*ssa.UnOp)
+							if !isC || !isL || kc.Value == nil || ld.Op != token.MUL {
+								continue
+							}
+							if fa, isFa := ld.X.(*ssa.FieldAddr); isFa && fieldObj(fa) == fw.fo && constant.Compare(kc.Value, token.EQL, k.Value) {
+								enum = true
+							}
+						}
+					}
+				}
+				r.Decide("flow", fmt.Sprintf("(*M.%s).%s sets %s", typ, setter, fw.fo.Name()), (isB && b) || isRMW(fw) || enum, "stores true, adds its bit to the field, or stores the state constant the getter compares with", "the setter stores something else than true / its own bit / the getter's state", fw.at.Pos())
+				continue
+			}
+			isUnsetter := false
+			for _, u := range unsetters {
+				if fnName(f) == u {
+					isUnsetter = true
+				}
+			}
+			if isUnsetter {
+				continue
+			}
+			r.Decide("flow", fmt.Sprintf("%s does not wipe the mark set by %s", fnName(f), setter), isRMW(fw), "its write to "+fw.fo.Name()+" keeps the previous contents (read-modify-write)", fmt.Sprintf("%s overwrites %s, the field %s relies on, without keeping its previous contents: calling it after %s() silently clears the mark", fnName(f), fw.fo.Name(), getter, setter), fw.at.Pos())
 		}
 	}
 }
@@ -2370,4 +2464,492 @@ func lastIndexRule(r *Report, rels ...string) {
 	if n == 0 {
 		r.Hold("path", fmt.Sprintf("last-element indexing in %v", rels), "no x[len(x)-k] expression")
 	}
+}
+
+// fieldWritersRule: who may write a struct field. Every store to the field
+// (outside a freshly allocated struct) sits in one of the allowed functions.
+func fieldWritersRule(r *Report, rel, typ, field string, allowed map[string]bool, why string) {
+	n := r.W.Named(rel, typ)
+	if n == nil {
+		r.Undecided(short(P(rel))+"."+typ, "UNRESOLVED")
+		return
+	}
+	fo := structField(n, field)
+	if fo == nil {
+		r.Undecided(short(P(rel))+"."+typ+"."+field, "UNRESOLVED")
+		return
+	}
+	cnt := 0
+	for _, st := range r.W.fieldStores(fo) {
+		fa := st.Addr.(*ssa.FieldAddr)
+		if freshBase(fa) {
+			continue
+		}
+		cnt++
+		fn := fnName(st.Parent())
+		r.Touch(st.Parent())
+		r.Decide("callgraph", fmt.Sprintf("writer of %s.%s.%s: %s", short(P(rel)), typ, field, fn), allowed[fn], "one of the functions that own the field", fmt.Sprintf("%s writes %s.%s: %s", fn, typ, field, why), st.Pos())
+	}
+	// atomic stores / swaps through the field's address
+	for _, f := range r.W.Funcs(rel) {
+		for _, c := range calls(f) {
+			nm := calleeName(c)
+			if !(strings.HasPrefix(nm, "sync/atomic.Store") || strings.HasPrefix(nm, "sync/atomic.Swap") || strings.HasPrefix(nm, "sync/atomic.CompareAndSwap") || strings.HasPrefix(nm, "sync/atomic.Add")) {
+				continue
+			}
+			if fa, ok := c.Common().Args[0].(*ssa.FieldAddr); ok && fieldObj(fa) == fo {
+				cnt++
+				r.Decide("callgraph", fmt.Sprintf("writer of %s.%s.%s: %s", short(P(rel)), typ, field, fnName(f)), allowed[fnName(f)], "one of the functions that own the field", fmt.Sprintf("%s writes %s.%s: %s", fnName(f), typ, field, why), c.Pos())
+			}
+		}
+	}
+	if cnt == 0 {
+		r.Hold("callgraph", fmt.Sprintf("writers of %s.%s.%s", short(P(rel)), typ, field), "written only where the struct is built")
+	}
+}
+
+// statelessRule: the function (and the module functions it calls statically)
+// keeps nothing between calls: it refers to no package-level variable of the
+// module except the ones listed (read-only tables).
+func statelessRule(r *Report, f *ssa.Function, allowedGlobals map[string]bool, why string) {
+	if f == nil {
+		return
+	}
+	bad := ""
+	var pos token.Pos
+	for _, g := range r.W.staticReach(f) {
+		r.Touch(g)
+		for _, in := range instrs(g) {
+			var ops []*ssa.Value
+			for _, op := range in.Operands(ops) {
+				gl, ok := (*op).(*ssa.Global)
+				if !ok || gl.Pkg == nil || !strings.HasPrefix(gl.Pkg.Pkg.Path(), M) {
+					continue
+				}
+				if allowedGlobals[gl.Name()] || strings.HasSuffix(gl.Pkg.Pkg.Path(), "/log") {
+					continue
+				}
+				// loads of sentinel errors and regexps compiled once are not state
+				if ld, isLd := in.(*ssa.UnOp); isLd && ld.Op == token.MUL && sentinelGlobal(gl) {
+					continue
+				}
+				// a variable nothing ever assigns (a debugging hook left nil, a constant-like
+				// scalar) cannot carry anything from one message to the next
+				if ld, isLd := in.(*ssa.UnOp); isLd && ld.Op == token.MUL && r.W.neverAssigned(gl) {
+					continue
+				}
+				bad = gl.Name()
+				pos = in.Pos()
+			}
+		}
+	}
+	r.Decide("callgraph", fnName(f)+" keeps no state between messages", bad == "", "no package-level variable is used besides read-only tables", fmt.Sprintf("the function uses the package-level variable %q: %s", bad, why), pos)
+}
+
+// errorsReturnedRule: in f, the error of each callee listed for f in
+// propagatedErrors reaches f's own error result (directly, through a variable,
+// or wrapped by fmt.Errorf): a failure that is reported to the caller on the
+// pinned tree is not logged and forgotten. With exact, no other callee's error
+// may reach the result either (a logger must not find new ways to fail the
+// exchange). ioutil.ReadAll and io.ReadAll are one callee.
+func errorsReturnedRule(r *Report, f *ssa.Function, exact bool) {
+	if f == nil {
+		return
+	}
+	res := f.Signature.Results()
+	if res.Len() == 0 || !isErrorType(res.At(res.Len()-1).Type()) {
+		return
+	}
+	w := r.W
+	norm := func(n string) string {
+		switch n {
+		case "io.ReadAll":
+			return "io/ioutil.ReadAll"
+		case "io.NopCloser":
+			return "io/ioutil.NopCloser"
+		}
+		return n
+	}
+	want := map[string]bool{}
+	for _, c := range propagatedErrors[fnName(f)] {
+		want[c] = true
+	}
+	returned := map[ssa.Value]bool{}
+	for _, ret := range returns(f) {
+		for _, v := range retVals(ret, res.Len()-1) {
+			for x := range w.backSlice(v, flowOpt{Through: map[string]bool{"fmt.Errorf": true}, CallArg: true}) {
+				returned[x] = true
+			}
+		}
+	}
+	seen := map[string]bool{}
+	for _, in := range instrs(f) {
+		c, ok := in.(*ssa.Call)
+		if !ok {
+			continue
+		}
+		cr := c.Call.Signature().Results()
+		if cr.Len() == 0 || !isErrorType(cr.At(cr.Len()-1).Type()) {
+			continue
+		}
+		nm := norm(nameOrDyn(c))
+		if nm == "fmt.Errorf" || nm == "errors.New" {
+			continue
+		}
+		reaches := false
+		for _, e := range errOf(c) {
+			if returned[e] {
+				reaches = true
+			}
+		}
+		if reaches && os.Getenv("VERIF_DUMP_ERRTABLE") != "" && nm != "dynamic call" {
+			fmt.Fprintf(os.Stderr, "ERRTABLE %s|%s\n", fnName(f), nm)
+		}
+		if want[nm] {
+			seen[nm] = true
+			r.Decide("flow", fmt.Sprintf("%s: error of %s#%d reaches the function's result", fnName(f), nm, ordinalAny(f, c)), reaches, "the error value flows into a return", "the error is dropped (logged at most): the caller carries on as if the step had succeeded", c.Pos())
+		} else if exact && reaches {
+			r.Fail("flow", fmt.Sprintf("%s: error of %s#%d is not among the failures the function reports", fnName(f), nm, ordinalAny(f, c)), "the function now fails on an error it used to tolerate: its caller (the proxy) turns that into a Warning header or an aborted step for traffic that passed before", nil, c.Pos())
+		}
+	}
+	for nm := range want {
+		if !seen[nm] {
+			r.Note("%s: no call of %s any more (its error used to be propagated)", fnName(f), nm)
+		}
+	}
+}
+
+// nilableFields are standard-library struct fields documented as nil in
+// ordinary operation (not only on misuse): dereferencing one without a test is
+// a nil-pointer panic on an input-dependent path.
+var nilableFields = map[string]string{
+	"net.OpError.Addr":               "nil for operations with no remote address (Accept, a failed Dial before resolution, a closed connection)",
+	"net.OpError.Source":             "nil unless the operation had a local address",
+	"net/http.Request.TLS":           "nil for requests that arrived in cleartext",
+	"net/http.Response.TLS":          "nil for responses received in cleartext",
+	"net/url.URL.User":               "nil when the URL carries no userinfo",
+	"net/http.Request.MultipartForm": "nil until ParseMultipartForm has been called",
+}
+
+// nilSafeMethods tolerate a nil receiver.
+var nilSafeMethods = map[string]bool{
+	"(*net/url.Userinfo).Username": true,
+	"(*net/url.Userinfo).Password": true,
+	"(*net/url.Userinfo).String":   true,
+}
+
+// nilableFieldRule: every dereference (method call, field access, load) of a
+// value read from a nilable standard-library field is dominated by a non-nil
+// test of that same access path.
+func nilableFieldRule(r *Report, rels ...string) {
+	n := 0
+	for _, f := range r.W.Funcs(rels...) {
+		for _, in := range instrs(f) {
+			var fo *types.Var
+			var val ssa.Value
+			switch x := in.(type) {
+			case *ssa.UnOp:
+				fa, ok := x.X.(*ssa.FieldAddr)
+				if x.Op != token.MUL || !ok {
+					continue
+				}
+				fo, val = fieldObj(fa), x
+			case *ssa.Field:
+				fo, val = fieldObjV(x), x
+			default:
+				continue
+			}
+			if fo == nil || fo.Pkg() == nil {
+				continue
+			}
+			owner := ""
+			switch x := in.(type) {
+			case *ssa.UnOp:
+				owner = namedOf(x.X.(*ssa.FieldAddr).X.Type())
+			case *ssa.Field:
+				owner = namedOf(x.X.Type())
+			}
+			key := fo.Pkg().Path() + "." + owner + "." + fo.Name()
+			why, isNilable := nilableFields[key]
+			if !isNilable || val.Referrers() == nil {
+				continue
+			}
+			path := pathOf(val)
+			for _, u := range *val.Referrers() {
+				deref := false
+				switch y := u.(type) {
+				case ssa.CallInstruction:
+					c := y.Common()
+					if c.IsInvoke() && c.Value == val {
+						deref = true
+					} else if !c.IsInvoke() && len(c.Args) > 0 && c.Args[0] == val {
+						if sc := c.StaticCallee(); sc != nil && sc.Signature.Recv() != nil && !nilSafeMethods[sc.String()] {
+							deref = true
+						}
+					}
+				case *ssa.FieldAddr:
+					deref = y.X == val
+				case *ssa.UnOp:
+					deref = y.Op == token.MUL && y.X == val
+				}
+				if !deref {
+					continue
+				}
+				n++
+				r.Touch(f)
+				guarded := false
+				for _, ce := range ctrlEdges(u.Block()) {
+					b, ok := ce.If.Cond.(*ssa.BinOp)
+					if !ok || (b.Op != token.EQL && b.Op != token.NEQ) {
+						continue
+					}
+					other := b.X
+					if isNilConst(b.X) {
+						other = b.Y
+					} else if !isNilConst(b.Y) {
+						continue
+					}
+					if (other == val || pathOf(other) == path) && (b.Op == token.NEQ) == ce.Taken {
+						guarded = true
+					}
+				}
+				r.Decide("path", fmt.Sprintf("%s: dereference of %s #%d is guarded by a nil test", fnName(f), path, n), guarded, "dominated by a non-nil test of the same access path", fmt.Sprintf("%s is dereferenced without a dominating nil test; the field is %s, and the nil-pointer panic, which nothing recovers, ends the proxy process", key, why), u.Pos())
+			}
+		}
+	}
+	if n == 0 {
+		r.Hold("path", fmt.Sprintf("dereferences of nilable standard-library fields in %v", rels), "none")
+	}
+}
+
+func namedOf(t types.Type) string {
+	if p, ok := t.Underlying().(*types.Pointer); ok {
+		t = p.Elem()
+	}
+	if p, ok := t.(*types.Pointer); ok {
+		t = p.Elem()
+	}
+	if nm, ok := t.(*types.Named); ok {
+		return nm.Obj().Name()
+	}
+	return ""
+}
+
+// goBlockRule: a goroutine literal never parks forever on a channel operation
+// that nobody is obliged to complete. Inside every `go func(){...}` literal of
+// the given packages, each channel operation outside a select is classified by
+// the channel's origin (backward slice, through captures and fields):
+//   - a bare send is fine when every origin is make(chan T, n) with constant n>=1
+//     and the literal sends at most once per run (not in a loop), or the channel
+//     is received from unconditionally by the creator's join;
+//   - a bare receive is fine when some close() of the same origin exists, or
+//     the origin is a timer/context channel.
+//
+// Anything else has no party obliged to complete it once the creator returned:
+// the goroutine outlives the session.
+func goBlockRule(r *Report, rels ...string) {
+	w := r.W
+	n := 0
+	// closed origins in the module
+	closedField := map[*types.Var]bool{}
+	closedMake := map[ssa.Value]bool{}
+	for _, f := range w.Funcs() {
+		for _, c := range calls(f, "builtin.close") {
+			for v := range w.backSlice(c.Common().Args[0], flowOpt{Fields: true}) {
+				switch x := v.(type) {
+				case *ssa.MakeChan:
+					closedMake[x] = true
+				case *ssa.FieldAddr:
+					closedField[fieldObj(x)] = true
+				case *ssa.Field:
+					closedField[fieldObjV(x)] = true
+				}
+			}
+		}
+	}
+	for _, f := range w.Funcs(rels...) {
+		for _, in := range instrs(f) {
+			gs, ok := in.(*ssa.Go)
+			if !ok {
+				continue
+			}
+			fn := goTarget(gs)
+			if fn == nil || fn.Blocks == nil || !strings.HasPrefix(fn.Pkg.Pkg.Path(), M) {
+				continue
+			}
+			for _, gi := range instrs(fn) {
+				var ch ssa.Value
+				kind := ""
+				switch x := gi.(type) {
+				case *ssa.Send:
+					ch, kind = x.Chan, "send"
+				case *ssa.UnOp:
+					if x.Op == token.ARROW {
+						ch, kind = x.X, "receive"
+					}
+				}
+				if ch == nil {
+					continue
+				}
+				n++
+				r.Touch(f)
+				okOp, origins, unknown := true, 0, false
+				for v := range w.backSlice(ch, flowOpt{Fields: true, Params: true}) {
+					switch x := v.(type) {
+					case *ssa.MakeChan:
+						origins++
+						sz, isK := constInt(x.Size)
+						if kind == "send" {
+							if !(isK && sz >= 1 && (!inLoop(gi.Block()) || latchedOnce(gi))) && !joined(f, gs, x) {
+								okOp = false
+							}
+						} else if !closedMake[x] {
+							okOp = false
+						}
+					case *ssa.FieldAddr:
+						if _, isCh := fieldObj(x).Type().Underlying().(*types.Chan); isCh && kind == "receive" && closedField[fieldObj(x)] {
+							origins++
+						}
+					case *ssa.Parameter:
+						if _, isCh := x.Type().Underlying().(*types.Chan); isCh && x.Parent() != fn {
+							unknown = true
+						}
+					case *ssa.Call:
+						if isCallValue(x, "time.After", "(context.Context).Done", "time.Tick") {
+							origins++
+						}
+					}
+				}
+				if origins == 0 && unknown {
+					r.Hold("flow", fmt.Sprintf("%s: goroutine literal #%d: bare %s #%d", fnName(f), ordinalGo(f, gs), kind, n), "the channel is a parameter of the creating function: its completion is the caller's contract")
+					continue
+				}
+				r.Decide("flow", fmt.Sprintf("%s: goroutine literal #%d: bare %s #%d cannot park forever", fnName(f), ordinalGo(f, gs), kind, n), okOp && origins > 0, "the channel is buffered for the single send / joined by the creator / closed by its owner", fmt.Sprintf("the goroutine %ss outside a select on a channel that nothing is obliged to complete once the creating function has returned (unbuffered or looped send with no join, or a receive from a channel nobody closes): the goroutine stays blocked after the session ends", kind), gi.Pos())
+			}
+		}
+	}
+	if n == 0 {
+		r.Note("goroutine blocking: no bare channel operation inside a goroutine literal in %v", rels)
+	}
+}
+
+// joined: the creating function receives from the channel made by mk, outside
+// a select, on every path from the go statement to its returns.
+func joined(f *ssa.Function, gs *ssa.Go, mk *ssa.MakeChan) bool {
+	if mk.Parent() != f {
+		return false
+	}
+	g := G(f)
+	isJoin := func(i ssa.Instruction) bool {
+		u, ok := i.(*ssa.UnOp)
+		if !ok || u.Op != token.ARROW {
+			return false
+		}
+		for _, v := range resolveAll(u.X) {
+			if v == ssa.Value(mk) {
+				return true
+			}
+		}
+		return false
+	}
+	return g.PathTo([]ssa.Instruction{gs}, false, isJoin, isExit) == nil
+}
+
+// latchedOnce: the instruction sits in a loop but can execute at most once,
+// because it is guarded by `latch == nil` and `v != nil` where latch is a loop
+// variable whose only values are nil (initially), itself, and v: once v has
+// been non-nil the guard never holds again (the first-error latch idiom).
+func latchedOnce(in ssa.Instruction) bool {
+	var latch *ssa.Phi
+	var nonNil []ssa.Value
+	for _, ce := range ctrlEdges(in.Block()) {
+		b, ok := ce.If.Cond.(*ssa.BinOp)
+		if !ok || (b.Op != token.EQL && b.Op != token.NEQ) {
+			continue
+		}
+		other := b.X
+		if isNilConst(b.X) {
+			other = b.Y
+		} else if !isNilConst(b.Y) {
+			continue
+		}
+		isNil := (b.Op == token.EQL) == ce.Taken
+		if ph, isPhi := other.(*ssa.Phi); isPhi && isNil {
+			latch = ph
+		} else if !isNil {
+			nonNil = append(nonNil, other)
+		}
+	}
+	if latch == nil || len(nonNil) == 0 {
+		return false
+	}
+	for _, v := range nonNil {
+		seen := map[*ssa.Phi]bool{}
+		var only func(x ssa.Value) bool
+		only = func(x ssa.Value) bool {
+			if x == v || isNilConst(x) {
+				return true
+			}
+			ph, ok := x.(*ssa.Phi)
+			if !ok {
+				return false
+			}
+			if seen[ph] {
+				return true
+			}
+			seen[ph] = true
+			for _, e := range ph.Edges {
+				if !only(e) {
+					return false
+				}
+			}
+			return true
+		}
+		// the initial value must be nil and v must be one of the edges
+		if only(latch) {
+			return true
+		}
+	}
+	return false
+}
+
+// goTarget is the function a go statement starts: a literal (with or without
+// captured variables) or a named function.
+func goTarget(gs *ssa.Go) *ssa.Function {
+	switch x := gs.Call.Value.(type) {
+	case *ssa.MakeClosure:
+		return x.Fn.(*ssa.Function)
+	case *ssa.Function:
+		return x
+	}
+	return gs.Call.StaticCallee()
+}
+
+// neverAssigned: the package-level variable is of a value or function type
+// (nothing reachable through it can be mutated) and no function of the module
+// other than the package initialiser stores to it or takes its address.
+func (w *World) neverAssigned(g *ssa.Global) bool {
+	switch g.Type().(*types.Pointer).Elem().Underlying().(type) {
+	case *types.Basic, *types.Signature:
+	default:
+		return false
+	}
+	for _, f := range w.Funcs() {
+		for _, in := range instrs(f) {
+			var ops []*ssa.Value
+			for _, op := range in.Operands(ops) {
+				if *op != ssa.Value(g) {
+					continue
+				}
+				if ld, ok := in.(*ssa.UnOp); ok && ld.Op == token.MUL {
+					continue
+				}
+				if f.Name() == "init" && f.Signature.Recv() == nil {
+					continue
+				}
+				return false
+			}
+		}
+	}
+	return true
 }
